@@ -29,7 +29,7 @@ SPAS = [
     (b"SPA\xe9\x01\xfe:27", "Latin id", ("10.0.0.15", 10022)),  # identifier bytes >= 0x80 (latin-1 text on the API side)
 ]
 LAT = [0.05, 0.95, 3.95, 4.05, 9.95, 10.05]
-FILTERS = ["none", "address", "id", "other-id", "address+id"]
+FILTERS = ["none", "address", "id", "other-id", "address+id", "subnet"]
 
 
 class Responder:
@@ -77,6 +77,10 @@ def _run(ch, spas, filt, window):
         kw["spa_address"] = target.addr[0] if target else "10.0.0.99"
     if filt in ("id", "address+id"):
         kw["spa_identifier"] = (target.id if target else b"SPA99").decode("latin1")
+    if filt == "subnet":
+        # the configured address is the directed broadcast address of the spas' sub-net (or a host name / NATed address):
+        # replies come from the spas' own addresses, which is what the descriptors must carry
+        kw["spa_address"] = "10.0.0.255"
     if filt == "other-id":
         kw["spa_identifier"] = "SPA99:99:99:99:99:99"
     with loop.running():
@@ -95,7 +99,7 @@ def _run(ch, spas, filt, window):
     else:
         t_ret = loop.time() - t0
         # which responders could be heard: with an address filter only that address is asked
-        heard = [r for r in rs if filt not in ("address", "address+id") or r.addr[0] == kw["spa_address"]]
+        heard = [r for r in rs if filt not in ("address", "address+id") or r.addr[0] == kw["spa_address"]]  # subnet: all
         arrivals = sorted(((a - t0, r) for r in heard for a in r.sent), key=lambda x: (x[0], x[1].id))
         n_dgrams = len(arrivals)
 
@@ -204,6 +208,12 @@ def run(ctx):
         for tr in itertools.combinations(range(4), 3):
             for ls in itertools.product(lats3, repeat=3):
                 plans.append((tuple((i, l, 1) for i, l in zip(tr, ls)), f, 0.0))
+    # heavy reply multiplicity: more datagrams per second than the consumer drains
+    for f in FILTERS:
+        for m in (8, 12):
+            plans.append((((0, 0.05, m),), f, 0.0))
+            plans.append((((0, 0.05, m), (2, 0.05, m)), f, 0.0))
+            plans.append((((1, 0.95, m), (3, 0.05, 1)), f, 0.0))
     # reply loss: the reply to the first request (or the first two) of one spa is lost, alone and next to a spa that is heard at once
     for f in FILTERS:
         for i in range(len(SPAS)):
